@@ -61,7 +61,9 @@ RCOV = {
 }  # fmt: skip
 Z_OF = {"H": 1, "B": 5, "C": 6, "N": 7, "O": 8, "F": 9, "Al": 13, "Si": 14, "P": 15, "S": 16, "Cl": 17, "Fe": 26, "Pd": 46}
 # bond type number -> order; None = the harness has no independent order for it
-ORDER = {1: 1.0, 2: 2.0, 3: 3.0, 4: 4.0, 20: 1.5, 21: 1.0, 98: 0.0, 10: 0.0, 11: 0.0}
+# Bond.order as documented in the library: 0..6 -> the number (Unknown = 0), aromatic 1.5, fractional
+# its f_order, H-acceptor / dummy / ligand / not-connected 0, every other type (amide, H-donor, ...) 1
+ORDER = {0: 0.0, 1: 1.0, 2: 2.0, 3: 3.0, 4: 4.0, 5: 5.0, 6: 6.0, 20: 1.5, 21: 1.0, 98: 0.0, 10: 0.0, 11: 0.0, 101: 0.0}
 CC = 10  # AtomType.CoordinationCenter
 TOL_R = 1e-3  # Angstrom; see the assumption on distances
 
@@ -69,7 +71,7 @@ TOL_R = 1e-3  # Angstrom; see the assumption on distances
 def bond_order(btype, f_order):
     if btype == 99:
         return float(f_order)
-    return ORDER.get(btype)
+    return ORDER.get(btype, 1.0)
 
 
 def due(z, charge, spin, bonded, hint):
@@ -190,6 +192,18 @@ BT_ORDER = {"single": 1.0, "double": 2.0, "triple": 3.0, "aromatic": 1.5, "fract
 OFFSETS = [(0.0, 0.0, 0.0), (0.3, -1.2, 0.7), (-2.5, 0.4, 1.9), (10.0, 10.0, -10.0)]
 
 
+ALL_TYPE_NAMES = []
+for _x in sorted({int(v) for v in BondType}):  # every member of the enumeration: an alphabet, read at import
+    if _x != 99:
+        BT[f"type-{_x}"] = (BondType(_x), 1.0)
+        BT_ORDER[f"type-{_x}"] = bond_order(_x, 1.0)
+        ALL_TYPE_NAMES.append(f"type-{_x}")
+for _fo in (0.5, 1.5, 2.25):
+    BT[f"fractional-{_fo}"] = (BondType.FractionalOrder, _fo)
+    BT_ORDER[f"fractional-{_fo}"] = _fo
+    ALL_TYPE_NAMES.append(f"fractional-{_fo}")
+
+
 def rot(lst, k):
     lst = list(lst)
     k %= len(lst)
@@ -205,12 +219,13 @@ def oa25():
 # building one environment
 # =================================================================================================
 _RZ = {}
-REPS = ("members", "plain", "mlib", "clib", "pickle")
+REPS = ("members", "plain", "mlib", "clib", "pickle", "structure")
 REP_CLASS = {
     "plain": "bond-types-and-atom-fields-as-plain-numbers",
     "mlib": "after-MoleculeLibrary-round-trip",
     "clib": "after-ConformerLibrary-round-trip",
     "pickle": "after-pickle",
+    "structure": "as-plain-Structure(molecule)",
 }
 
 
@@ -288,6 +303,8 @@ def roundtrip(scratch, mols, kind):
 
     if kind == "pickle":
         return [pickle.loads(pickle.dumps(m)) for m in mols]
+    if kind == "structure":
+        return [ml.Structure(m) for m in mols]
     _RT_COUNTER[0] += 1
     path = Path(scratch) / f"rt-{os.getpid()}-{_RT_COUNTER[0]}.{kind}"
     with warnings.catch_warnings():
@@ -333,7 +350,9 @@ def snapshot(m):
     bonds = list(m.bonds)
     idx = {id(a): i for i, a in enumerate(atoms)}
     bdesc = [(idx.get(id(b.a1)), idx.get(id(b.a2)), int(b.btype), int(b.stereo), float(b.f_order)) for b in bonds]
-    ch = m.atomic_charges
+    ch = getattr(m, "atomic_charges", None)
+    if ch is None:
+        ch = np.zeros(0)
     return {
         "raw_atoms": raw_atoms,
         "raw_bonds": [(b.btype, b.stereo) for b in bonds],
@@ -345,8 +364,9 @@ def snapshot(m):
         "coords": np.array(m.coords, dtype=float, copy=True),
         "charges": [x for x in np.asarray(ch).tolist()],
         "charges_kind": np.asarray(ch).dtype.kind,
-        "charge": m.charge,
-        "mult": m.mult,
+        "charge": getattr(m, "charge", None),
+        "mult": getattr(m, "mult", None),
+        "has_charges": hasattr(m, "atomic_charges"),
     }
 
 
@@ -399,15 +419,17 @@ def verify(m, snap, whole=False, notes=None, selected=None):
         return out, None
     if coords[:n0].tobytes() != snap["coords"].tobytes():
         out.append(("unchanged:coordinates", "coordinates of pre-existing atoms changed"))
-    ch = np.asarray(m.atomic_charges)
-    if ch.shape[0] != len(atoms):
+    ch = np.asarray(m.atomic_charges) if snap.get("has_charges", True) else None
+    if ch is None:
+        pass
+    elif ch.shape[0] != len(atoms):
         out.append(("unchanged:atomic-charges-length", f"{ch.shape[0]} atomic charges for {len(atoms)} atoms"))
     else:
         if [repr(x) for x in ch[:n0].tolist()] != [repr(x) for x in snap["charges"]]:
             out.append(("unchanged:atomic-charges", "atomic charges of pre-existing atoms changed"))
         if len(atoms) > n0 and snap["charges_kind"] == "f" and ch.dtype.kind != "f":
             out.append(("unchanged:atomic-charges-dtype", f"the float array of atomic charges became dtype={ch.dtype} (new entries {ch[n0:].tolist()[:3]})"))
-    if (m.charge, m.mult) != (snap["charge"], snap["mult"]):
+    if (getattr(m, "charge", None), getattr(m, "mult", None)) != (snap["charge"], snap["mult"]):
         out.append(("unchanged:molecule-charge-mult", f"molecule charge/multiplicity changed {(snap['charge'], snap['mult'])} -> {(m.charge, m.mult)}"))
 
     # ---- the new atoms ---------------------------------------------------------------------------------
@@ -482,6 +504,9 @@ def verify(m, snap, whole=False, notes=None, selected=None):
             sym = "too-few" if len(got) < exp else "too-many"
             neg = hint is None and fs is not None and fs < 0
             tcls = f"atom-type-{(atype // 100) * 100}s" if atype >= 100 else None  # 100-102 placeholders, 201.. specific classes
+            rare = sorted({bt_of[(i, j)] for j in nbrs[i]} - {1, 2, 3, 20, 99, 98, 10, 11})
+            if rare and not neg and not tcls and hint is None:
+                tcls = f"bond-type-{rare[0]}"  # a bond type outside the everyday ones on the judged atom
             out.append((f"count[formula;negative-spin]:{sym}" if neg else (f"count[{src};{tcls}]:{sym}" if tcls else f"count[{src};bonded-valence-{frac};due-{exp}]:{sym}"), f"Z={z} charge={fc} spin={fs} hint={hint} bonded valence={bonded[i]:g} ({len(nbrs[i])} neighbours): {len(got)} hydrogens added, {exp} due"))
         if not got:
             continue
@@ -551,6 +576,9 @@ def verify(m, snap, whole=False, notes=None, selected=None):
 
 def make_repro(snap, case):
     """self-contained snippet (imports only molli/numpy) that rebuilds the molecule of a case."""
+    if case.get("kind") == "mol2-text":
+        cls = "Structure" if case.get("cls") == "Structure" else "Molecule"
+        return f"import molli as ml\ntxt = {mol2_env(case)!r}\nm = ml.{cls}.loads_mol2(txt)\nn = m.n_atoms\nprint([(int(b.btype), b.order) for b in m.bonds])\nm.add_implicit_hydrogens()\nprint(m.n_atoms - n, 'hydrogens added')\n"
     if case.get("kind") == "file":
         return "import molli as ml\nm = ml.Molecule.load_mol2(ml.files.hadd_test_mol2)\nn = m.n_atoms\nm.add_implicit_hydrogens()\nprint(m.n_atoms - n, m.coords[n:], m.atomic_charges.dtype)\n"
     if case.get("kind") == "cdxml":
@@ -646,10 +674,12 @@ def rebuild(snap):
     m = Molecule(atoms, copy_atoms=False)
     m.coords = np.array(snap["coords"], dtype=float)
     try:
-        m.atomic_charges = np.array(snap["charges"], dtype=float)
+        if snap["charges"]:
+            m.atomic_charges = np.array(snap["charges"], dtype=float)
     except Exception:
         pass
-    m.charge, m.mult = snap["charge"], snap["mult"]
+    if snap["charge"] is not None:
+        m.charge, m.mult = snap["charge"], snap["mult"]
     for (i, j, bt, st, fo), raw in zip(snap["bdesc"], snap["raw_bonds"]):
         m.append_bond(Bond(atoms[i], atoms[j], btype=raw[0], stereo=raw[1], f_order=fo))
     return m
@@ -864,7 +894,7 @@ def _flush_roundtrips(sub, batch, seed):
     """batch: [(case, baseline signatures)] -> the same environments after mlib / clib / pickle"""
     if not batch:
         return
-    for kind in ("mlib", "clib", "pickle"):
+    for kind in ("mlib", "clib", "pickle", "structure"):
         mols = [build(c, seed) for c, _ in batch]
         try:
             back = roundtrip(sub.scratch, mols, kind)
@@ -1157,6 +1187,20 @@ def apply_ownership(m, case, kind):
     if kind == "copy-constructor;call-on-original":
         KEEP.append(Molecule(m))
         return m
+    if kind == "class:Structure(molecule)":
+        return ml.Structure(m)
+    if kind == "class:Structure-built-through-the-api":
+        st = ml.Structure(list(m.atoms), copy_atoms=False)
+        st.coords = np.array(m.coords, dtype=float)
+        for b in list(m.bonds):
+            st.append_bond(Bond(b.a1, b.a2, btype=b.btype, f_order=b.f_order))
+        return st
+    if kind in ("class:Structure.loads_mol2(dump)", "class:Molecule.loads_mol2(dump)"):
+        txt = m.dumps_mol2()
+        return (ml.Structure if "Structure" in kind else ml.Molecule).loads_mol2(txt)
+    if kind == "class:Substructure-of-all-atoms":
+        KEEP.append(m)
+        return m.substructure(list(m.atoms))
     if kind == "deepcopy":
         import copy
 
@@ -1177,6 +1221,7 @@ OWN_KINDS = (
     ["promolecule-all;kept", "promolecule-all;dropped", "promolecule-subset;kept", "promolecule-subset;dropped", "promolecule-others;kept", "promolecule-others;dropped"]
     + ["connectivity-all;kept", "connectivity-all;dropped", "connectivity-subset;kept", "structure-all;kept", "structure-all;dropped", "structure-others;dropped"]
     + ["substructure;kept", "copy-constructor;call-on-copy", "copy-constructor;call-on-original", "deepcopy", "join"]
+    + ["class:Structure(molecule)", "class:Structure-built-through-the-api", "class:Structure.loads_mol2(dump)", "class:Molecule.loads_mol2(dump)"]
 )
 
 
@@ -1204,6 +1249,52 @@ def ownership_bases(ctx):
     if ctx.thorough:
         specs += [(("C", "C"), ("aromatic", "aromatic"), "first-bond+z-109"), (("C", "C", "C"), ("single", "single", "fractional"), "axis-z-tetrahedral")]
     return heads, specs
+
+
+M2_ATOM = {"B": "B", "C": "C.3", "N": "N.3", "O": "O.3", "Si": "Si", "P": "P.3", "S": "S.3", "Al": "Al"}
+
+
+def mol2_env(case):
+    """a two/three atom mol2 text: centre - C (bond token under test) [- F through a single bond]"""
+    c = case["centre"]
+    atoms = [(c, M2_ATOM[c], (0.2, -0.1, 0.3)), ("C", "C.3", (1.3, 0.7, 0.9))]
+    bonds = [(1, 2, case["token"])]
+    if case.get("third"):
+        atoms.append(("F", "F", (-0.9, 0.8, 0.1)))
+        bonds.append((1, 3, "1"))
+    L = ["@<TRIPOS>MOLECULE", "env", f" {len(atoms)} {len(bonds)} 0 0 0", "SMALL", "NO_CHARGES", "", "@<TRIPOS>ATOM"]
+    for n, (el, ty, xyz) in enumerate(atoms):
+        L.append(f"{n + 1:7d} {el}{n + 1:<4d} {xyz[0]:10.4f} {xyz[1]:10.4f} {xyz[2]:10.4f} {ty:6s} 1 UNL1 0.0000")
+    L.append("@<TRIPOS>BOND")
+    for n, (a, b, t) in enumerate(bonds):
+        L.append(f"{n + 1:6d} {a:5d} {b:5d} {t:>4s}")
+    return "\n".join(L) + "\n"
+
+
+def load_mol2_env(case):
+    import molli as ml
+
+    cls = ml.Structure if case.get("cls") == "Structure" else ml.Molecule
+    return cls.loads_mol2(mol2_env(case))
+
+
+def _mol2_token_part(sub, part):
+    tokens, seed = part
+    for c in rot(CENTRES, seed):
+        for tok in tokens:
+            for third in (False, True):
+                for cls in ("Molecule", "Structure"):
+                    case = {"kind": "mol2-text", "centre": c, "token": tok, "third": third, "cls": cls}
+                    try:
+                        m = load_mol2_env(case)
+                    except Exception as e:
+                        sub.add_note(f"mol2_bond_tokens_that_do_not_load[{tok}]:{type(e).__name__}")
+                        continue
+                    sub.count(transitions=1)
+                    o, _ = run_one(sub, m, case, whole=True, keyclass="mol2-text")
+                    sub.outcome(("mol2-token", tok, cls, o[0], o[1][0][6:] if o[0] == "ok" and o[1] else None))
+                    sub.nontrivial((c, tok, third, cls))
+                    sub.add_note("mol2_bond_token_cases")
 
 
 def _ownership_part(sub, part):
@@ -1487,7 +1578,7 @@ def _whole_one(ctx, load, case, keyclass):
     m = load()
     n_before = m.n_atoms
     o, base = run_one(ctx, m, case, whole=True, keyclass=keyclass)
-    for kind in ("mlib", "clib", "pickle"):
+    for kind in ("mlib", "clib", "pickle", "structure"):
         try:
             m2 = roundtrip(ctx.scratch, [load()], kind)[0]
         except Exception as e:
@@ -1575,6 +1666,8 @@ def _dispatch(sub, part):
         _history_part(sub, part[1])
     elif part[0] == "ownership":
         _ownership_part(sub, part[1])
+    elif part[0] == "mol2-tokens":
+        _mol2_token_part(sub, part[1])
     elif part[0] == "sequence":
         _sequence_part(sub, part[1])
     elif part[0] == "cdxml-sequence":
@@ -1650,7 +1743,7 @@ def run(ctx):
     )
     ctx.assumptions += [
         "only the default call add_implicit_hydrogens() (all atoms) is judged; the count clause speaks about every atom of groups 13-16",
-        "bond orders: single 1, double 2, triple 3, aromatic 1.5, fractional = its f_order, amide 1, ligand/dummy/not-connected 0 (a dative bond does not use up the donor's valence); atoms with a bond of any other type are not judged",
+        "bond orders: single 1, double 2, triple 3, aromatic 1.5, fractional = its f_order, amide 1, unknown/ligand/dummy/not-connected/H-acceptor 0 (a dative bond does not use up the donor's valence), quadruple..sextuple 4..6, every other bond type 1 - the library's documented Bond.order table, written out in the harness",
         "removing the consumed hint key from an atom's attrib is not a change of the atom",
         "'away from the centroid of the existing neighbours': the neighbours are the bonded atoms that are not typed CoordinationCenter, whatever the bond type (a dative/ligand bond to a metal typed Regular counts, a CoordinationCenter attached by a single bond does not); when an atom has only CoordinationCenter neighbours, those (the routine's documented rule); in whole molecules the clause is applied only where the surroundings fix a direction (centroid >= 0.2 A from the atom; three neighbours: atom >= 0.2 A out of their plane)",
         "direction clause: every new hydrogen individually when the atom ends with <= 4 substituents; when a hint over-saturates the atom (neighbours + hydrogens > 4) the mean direction of its new hydrogens must point away",
@@ -1658,6 +1751,7 @@ def run(ctx):
         "representations and histories: the expected counts are always computed from what the molecule object holds right before the call (bond type numbers, f_order, formal charge/spin, hint), the order of an int-typed bond being that of the enum member with the same value; a failure of a variant (plain numbers, library/pickle round trip, query+edit history) is reported under '<symptom family>@<variant class>' and only for what the same molecule built plainly does not show",
         "explicit-atom calls add_implicit_hydrogens(*atoms) are judged call by call: the named atoms receive their count (hint where present, else formula), every other atom nothing; atoms are named in the ways this tree accepts (probed; rejected ways are listed in the notes, not judged); a default call after explicit calls is judged only where the atoms completed before it never had a hint (the property grants idempotence to hint-free atoms only: an atom completed by a hint smaller than the formula value is topped up by a later default call, which the property does not forbid)",
         "ownership: wrapping the atoms in a second container, copying, joining etc. are pre-histories; the frame condition after the call is unchanged (old atom list + new hydrogens, no object twice, finite coordinates)",
+        "every class that inherits the method is judged alike: Molecule, Molecule(mol), Structure(mol), a Structure built through the api, Structure/Molecule read from mol2 text - an exception escaping on one of them is a finding",
         "the atom type of an atom never enters its count (selection is by element group; atoms typed Dummy/AttachmentPoint/LonePair with a real element are completed like any other - the unchanged tree's rule)",
         "an argument list that names an atom twice completes it once; judged for atoms that never had a hint",
         "seeds turn every pose about the z axis (so that z-aligned poses stay z-aligned), change the centre position and bond lengths and rotate the alphabets",
@@ -1722,6 +1816,18 @@ def run(ctx):
         hs = mheads[i::4]
         if hs:
             parts.append(("grammar", (hs, mnm, ctx.seed, None, "many-neighbours", [{}, {"centre_last": True}])))
+    from molli.chem import BondType as _BT
+    from molli.chem.bond import MOL2_BOND_TYPE_MAP as _M2
+
+    tnames = list(ALL_TYPE_NAMES)
+    ctx.bound["bond_types_on_the_judged_atom"] = tnames
+    bnm = {1: [((el,), (t,)) for t in tnames for el in ("C", "H")], 2: [(("C", "C"), ("single", t)) for t in tnames] + [(("C", "F"), (t, "aromatic")) for t in tnames]}
+    bheads = [(c, q, 0, None) for c in rot(CENTRES, ctx.seed) for q in (0, 1, -1)]
+    for i in range(4):
+        hs = bheads[i::4]
+        if hs:
+            parts.append(("grammar", (hs, bnm, ctx.seed, 3 if ctx.thorough else 1, "bond-types")))
+    parts.append(("mol2-tokens", (sorted(_M2.keys()), ctx.seed)))
     dheads, dnm = dative_menu(ctx)
     validate_poses(ctx, dnm)
     ctx.bound["atom_type_x_bond_type"] = f"{len(dheads)} heads x {sum(len(v) for v in dnm.values())} neighbour specifications with (Regular metal | CoordinationCenter | carbon) x (ligand | single) crossed, every pose"
@@ -1757,7 +1863,7 @@ def run(ctx):
         if hs:
             parts.append(("grammar", (hs, nm, ctx.seed)))
     # longest parts first (the partition only changes wall time)
-    weight = {"grammar": 0, "whole": 1, "cdxml-sequence": 2, "history": 3, "sequence": 4, "ownership": 5}
+    weight = {"grammar": 0, "whole": 1, "cdxml-sequence": 2, "history": 3, "sequence": 4, "ownership": 5, "mol2-tokens": 6}
     parts.sort(key=lambda p: (1 if (p[0] == "grammar" and len(p[1]) > 3) else weight[p[0]]))  # short grammar parts (negative spins, dative) after the long ones
     # core.Ctx.pmap pickles the parent context with every job while the main thread merges finished
     # parts into it; with many parts that races ("set changed size during iteration").  The jobs are
@@ -1817,6 +1923,9 @@ def replay(ctx, case):
         m = materialise(case, ctx.seed, ctx.scratch)
         hist = bool(case.get("history"))
         run_one(ctx, m, case, whole=hist, second=rep == "members" and not hist, variant=variant, baseline=base)
+        return
+    if kind == "mol2-text":
+        run_one(ctx, load_mol2_env(case), case, whole=True, keyclass="mol2-text")
         return
     import molli
 
